@@ -41,7 +41,7 @@ def histories(bg, rng, tier):
                     yield wrap(bg, c, rng)
     # context-dependent literals whose width comes from a NON-constant value defined inside the function
     for k in range(12 if tier == "thorough" else 4):
-        w = rng.choice([0x40, 0x40, 0x20, 0x10])
+        w = [0x40, 0x40, 0x20, 0x10][k % 4] if k < 4 else rng.choice([0x40, 0x40, 0x20, 0x10])
         lit = lambda: ("Q%x" % rng.randrange(1 << 64)) if w == 0x40 else ("L%x" % rng.randrange(1 << 32))
         if k % 2 == 0:
             yield ["type_int %x %x" % (w, rng.randrange(2)), "begin_function 1 _ 0 3", "function_parameter 1", "begin_block _",
